@@ -23,8 +23,8 @@ def run(tier):
              (50000, 30000, 1000, [30000000, 31000000], 400000000, 250000000)]
     if tier == 'thorough':
         # (the first four lattices grow about fivefold per 25 % of horizon; the long-period configurations are coarse lattices)
-        confs = [(a, b, c, d, int(e * 1.25), int(f * 1.15)) if max(d) < 60000 else (a, b, c, d, e, f) for a, b, c, d, e, f in confs]
-        confs += [(3600, 5, 6000, [5000, 600000], 3800000, 1300000), (2, 1, 250, [100, 300, 1000], 7000, 2500), (16, 2, 2000, [1000, 7000], 60000, 30000)]
+        confs = [(a, b, c, d, int(e * 1.25), f) if max(d) < 60000 else (a, b, c, d, e, f) for a, b, c, d, e, f in confs]      # (replayed graphs keep their size: one script per edge)
+        confs += [(3600, 5, 6000, [5000, 600000], 2500000, 130000), (2, 1, 250, [100, 300, 1000], 7000, 2500), (16, 2, 2000, [1000, 7000], 60000, 30000)]
     st = tr = nscripts = nsteps = 0
     for ci, (sync, initial, timeout, steps, tmax, treplay) in enumerate(confs):
         for mode in ('distinct', 'same', 'none'):
@@ -57,6 +57,8 @@ def run(tier):
             if not edges or len(edges) + 1 > r2.generated or len(edges) < r2.distinct - 1:
                 raise common.MachineryError('SystemClockLoop edge dump inconsistent: %d edges, %d generated, %d distinct' % (len(edges), r2.generated, r2.distinct))
             evs = {e['ev'] for e in edges}
+            if len(edges) > 300000:
+                raise common.MachineryError('replay graph of %s has %d edges: horizon too large for one script per edge' % (tag, len(edges)))
             need = {'noref'} if mode == 'none' else {'send', 'valid', 'invalid', 'timeout', 'waiting', 'ok', 'wait'}
             if min(steps_m) >= timeout:
                 need -= {'waiting'}       # every call comes after the request has timed out
